@@ -88,8 +88,9 @@ def _variant_worker(args):
     if hasattr(mod, 'extra_variants') and tier == 'thorough':
         variants += list(mod.extra_variants(model))
     if tier == 'thorough':
-        from .mutate import load_seeds
+        from .mutate import load_benign, load_seeds
         variants += load_seeds(prop, report.VERIF)
+        variants += load_benign(prop, report.VERIF)
     return idx, run_variant(mod, model, variants[idx], tier, frozenset(tuple(b) for b in base))
 
 
@@ -184,8 +185,9 @@ def _main(prop, a, seed, timer):
     if hasattr(mod, 'extra_variants') and a.tier == 'thorough':
         all_variants += list(mod.extra_variants(model))
     if a.tier == 'thorough':
-        from .mutate import load_seeds
+        from .mutate import load_benign, load_seeds
         all_variants += load_seeds(prop, report.VERIF)
+        all_variants += load_benign(prop, report.VERIF)
     variants = [v for v in all_variants if v.kind == 'M'] if a.tier == 'quick' else list(all_variants)
     if a.tier == 'thorough':
         # behaviour-preserving transformations of every file that carries a rule instance: must stay silent
